@@ -122,7 +122,7 @@ func tset(out *tfp, v uint64) { out.v = v % tP }
 
 type toyHasher struct{}
 
-func (toyHasher) L() uint64                           { return 16 }
+func (toyHasher) L() uint64                            { return 16 }
 func (toyHasher) MessageExpander() h2c.MessageExpander { return nil }
 
 type toyMapper struct{}
@@ -142,7 +142,12 @@ func (toyWParams) MulBy3B(out, in *tfp)                      { tset(out, in.v*(3
 // A x^2 + y^2 = 1 + B x^2 y^2
 type toyEParams struct{}
 
-func (toyEParams) SetGenerator(x, y, t, z *tfp) { tset(x, tGx); tset(y, tGy); tset(t, tGx*tGy); tset(z, 1) }
+func (toyEParams) SetGenerator(x, y, t, z *tfp) {
+	tset(x, tGx)
+	tset(y, tGy)
+	tset(t, tGx*tGy)
+	tset(z, 1)
+}
 func (toyEParams) ClearCofactor(xo, yo, to, zo, xi, yi, ti, zi *tfp) {
 	xo.Set(xi)
 	yo.Set(yi)
